@@ -1168,6 +1168,7 @@ type pagedOpen struct {
 	scope   []string
 	cont    []*server.RelatedFrom
 	victim  map[relPair]bool // what the dataset about to be deleted contributes to the answer
+	first   map[relPair]int  // what the first page (read before the delete) returned
 }
 
 // startPagedBeforeDelete starts page-size-1 wildcard queries scoped to the dataset about to be deleted (and
@@ -1184,6 +1185,7 @@ func (r *CrashRun) startPagedBeforeDelete(victim string) []*pagedOpen {
 			break
 		}
 	}
+	scopes = append(scopes, nil) // and unscoped
 	pool, _ := collectNames(r.Sc)
 	for _, id := range pool {
 		c := r.H.curie(id)
@@ -1198,13 +1200,14 @@ func (r *CrashRun) startPagedBeforeDelete(victim string) []*pagedOpen {
 					continue
 				}
 				po := &pagedOpen{start: r.H.expand(c), inverse: inv, scope: scope, cont: first.Cont}
+				po.first, _ = relSet(r.H, first.Relations)
 				if inv {
 					po.victim = r.M.In(po.start, "*", []string{victim})
 				} else {
 					po.victim = r.M.Out(po.start, "*", []string{victim})
 				}
 				out = append(out, po)
-				if len(out) >= 12 {
+				if len(out) >= 18 {
 					return out
 				}
 			}
@@ -1223,6 +1226,18 @@ func (r *CrashRun) continuePagedAfterDelete(victim string, open []*pagedOpen) *V
 				survivors = append(survivors, n)
 			}
 		}
+		if pq.scope == nil {
+			for _, n := range r.M.Names() {
+				if n != victim {
+					survivors = append(survivors, n)
+				}
+			}
+		}
+		seen := map[relPair]bool{}
+		for p := range pq.first {
+			seen[p] = true
+		}
+		complete := true
 		allowed := map[relPair]bool{}
 		if len(survivors) > 0 {
 			if pq.inverse {
@@ -1235,10 +1250,12 @@ func (r *CrashRun) continuePagedAfterDelete(victim string, open []*pagedOpen) *V
 		for guard := 0; len(cont) > 0 && guard < 100; guard++ {
 			res, err := r.H.Store.GetManyRelatedEntitiesAtTime(cont, 1, true)
 			if err != nil {
+				complete = false
 				break // refusing a token of a deleted dataset is fine
 			}
 			got, _ := relSet(r.H, res.Relations)
 			for p := range got {
+				seen[p] = true
 				// judged: pairs the deleted dataset contributed and no surviving dataset of the scope ever held (a pair
 				// some version of a surviving dataset held may come back through the open inverse-scan finding KF-C03-1)
 				if !allowed[p] && pq.victim[p] && !everHeld(r.M, survivors, pq.start, pq.inverse, p) {
@@ -1250,6 +1267,21 @@ func (r *CrashRun) continuePagedAfterDelete(victim string, open []*pagedOpen) *V
 				}
 			}
 			cont = res.Cont
+		}
+		if complete && !pq.inverse && len(survivors) > 0 {
+			// the other datasets are unaffected by the delete: what they hold for the start entity has to come, on
+			// the first page or on one of the continued ones (outgoing direction only: see KF-C03-1 for the other)
+			var lost []string
+			for p := range allowed {
+				if !seen[p] {
+					lost = append(lost, shortURI(p[0])+"->"+shortURI(p[1]))
+				}
+			}
+			sort.Strings(lost)
+			if len(lost) > 0 {
+				return viol("C07", "deleted-dataset", "continued-pages-lose-other-datasets-relations:out", "an outgoing relationship query for %s (scope %v) paged with limit 1 was started before dataset %s was deleted; followed to its end afterwards it never returned %v, which the surviving datasets %v hold", shortURI(pq.start), pq.scope, victim, lost, survivors)
+			}
+			r.Stats["paged_across_delete_complete"]++
 		}
 		r.Stats["paged_across_delete"]++
 	}
